@@ -54,6 +54,49 @@ def sync (ts : List Tunnel) (registered : Option (List String)) (fr : List (Opti
     let r := assign ts (available ts reg) fr
     { out := r.1, calls := r.2, published := (hosts r.1).filter (· ≠ "") }
 
+/-! ## A tunnel removal arriving in the middle of a sync
+
+`UnpublishTunnel` / `ReleaseTunnel` (`tunnelRemovalWrapper`) may run while `SyncConfigTunnels` waits
+for an RPC (the sync holds `syncMu` only; `configMu` is free between its snapshot and
+`RebuildTunnels`). The sync works on a PRIVATE COPY of the tunnel list taken under `configMu.RLock`
+(`append([]Tunnel{}, c.Configuration.Tunnels...)`), so the removal edits only the live configuration;
+`RebuildTunnels` then installs the sync's own list. -/
+
+/-- `tunnelRemovalWrapper`: delete the first tunnel whose hostname is `h` (nothing if there is none). -/
+def removeHost (h : String) : List Tunnel → List Tunnel
+  | [] => []
+  | t :: ts => if t.host = h then ts else t :: removeHost h ts
+
+/-- the RPC of the sync during which the removal arrives (0-based call numbers) -/
+inductive Point where
+  | reg                -- RegisteredHostnames
+  | gen (k : Nat)      -- k-th GenerateHostname call
+  | pub (k : Nat)      -- k-th PublishTunnel call
+deriving DecidableEq, Repr
+
+structure ResultRm where
+  res : Result
+  /-- live configuration right after the removal returned; `none` = the sync never made that RPC -/
+  mid : Option (List Tunnel)
+deriving DecidableEq, Repr
+
+/-- does a sync with outcome `r` make the RPC `pt` at all? -/
+def reached (r : Result) : Point → Bool
+  | .reg => true
+  | .gen k => decide (k < r.calls)
+  | .pub k => decide (k < r.published.length)
+
+/-- `SyncConfigTunnels` with a removal of hostname `h` arriving while it waits at `pt`. -/
+def syncRm (ts : List Tunnel) (registered : Option (List String)) (fr : List (Option String))
+    (pt : Point) (h : String) : ResultRm :=
+  let r := sync ts registered fr
+  if !reached r pt then { res := r, mid := none }
+  else match registered with
+    -- early return: nothing is written back, the live configuration (minus the removed tunnel) stays
+    | none => { res := { r with out := removeHost h ts }, mid := some (removeHost h ts) }
+    -- the sync's private list is written back whole: the removal does not disturb the assignment
+    | some _ => { res := r, mid := some (removeHost h ts) }
+
 /-- the `some` answers of a script -/
 def somes : List (Option String) → List String
   | [] => []
